@@ -101,8 +101,10 @@ CLAIMS.update({
             "technique": TECH_FORK, "design_ref": "DESIGN.md A.4 / section 4 (C19)"},
     "C18": {"text": "Kernel: the real add()/remove() pipe closures (flat and non-flat, local and non-local target) are executed for every toggle history of bounded length "
                     "with each forked delivery scheduled at a symbolic point (before a later toggle or at quiescence, any order): at quiescence the target must be active "
-                    "exactly when the source is, and the closures never block. Reordering of forked deliveries is a known finding, reproduced natively by gating the stub target.",
-            "note": "Partial: the target is a recording stub of am.Api; Bind* assembly, BindAny and network consumers are outside the claim. Trusted: go/ssa, symgo, z3.",
+                    "exactly when the source is, and the closures never block. Reordering of forked deliveries is a known finding, reproduced natively by gating the stub target. BindAny's real AnyState "
+                    "closure is run over every history of 3 source transitions with arbitrary target sets: the target's active set equals the source's after each "
+                    "(the superset test that never mirrored deactivations was repaired, fix: 6b80c89).",
+            "note": "Partial: the target is a recording stub of am.Api; Bind* assembly by reflection and network consumers are outside the claim. Trusted: go/ssa, symgo, z3.",
             "technique": TECH_FORK, "design_ref": "DESIGN.md section 4 (C18)"},
     "C15": {"text": "Partial (state groups only): the shipped supervisor, worker, client and bootstrap schemas of pkg/node/states, dumped from the current source, are driven "
                     "through the real mutation path for every history of two single-state mutations from the empty machine with symbolic choices; no two members of a "
